@@ -2,6 +2,8 @@ package vc
 
 import (
 	"fmt"
+	"os"
+	"runtime/debug"
 	"go/constant"
 	"go/token"
 	"go/types"
@@ -30,6 +32,7 @@ type Env struct {
 	bound    map[string]Value
 	depth    int
 	inOld    bool
+	inBody   bool // inside the loop body (after the header advanced the hidden range index)
 	atCallSite bool // evaluating a callee's ensures for assumption: trace functions are not available
 }
 
@@ -40,7 +43,13 @@ type SpecError struct{ Msg string }
 
 func (s SpecError) Error() string { return "contract error: " + s.Msg }
 
-func specErr(f string, a ...any) { panic(SpecError{fmt.Sprintf(f, a...)}) }
+func specErr(f string, a ...any) {
+	msg := fmt.Sprintf(f, a...)
+	if os.Getenv("GOVC_TRACE") != "" {
+		msg += "\n" + string(debug.Stack())
+	}
+	panic(SpecError{msg})
+}
 
 func (x *exec) newEnv(st *State, fs *spec.FuncSpec) *Env {
 	env := &Env{x: x, st: st, names: map[string]Value{}, macros: map[string]spec.Expr{}}
@@ -333,6 +342,10 @@ func (env *Env) ident(name string) Value {
 	}
 	if name == "$i" && env.loop != nil && env.loop.rangeIdx != nil {
 		idx := env.st.locals[env.loop.rangeIdx]
+		if env.inBody {
+			// in the body the hidden index already designates the current element: that many iterations are complete
+			return scalar(tInt, idx.one())
+		}
 		return scalar(tInt, smt.BVBin("bvadd", idx.one(), smt.BVLit(1, 64)))
 	}
 	if env.frame != nil {
